@@ -271,6 +271,15 @@ func (c *c16) DumpCase(seed uint64, idx int) []Case {
 			}
 		}
 		cfg := randomCfg(r)
+		switch r.n(10) {
+		case 0:
+			cfg.RuleFuzz = true // error paths of schema loading, next to valid projects with the same type names
+			cfg.Types += 2
+		case 1:
+			cfg.BadTypes, cfg.BadEnums = 1+r.n(2), r.n(2)
+		case 2:
+			cfg.RecursiveMacros, cfg.UnusedPathParams = r.n(3), r.n(3)
+		}
 		d := generateDoc(r, cfg)
 		single, multi, _ := cutProject(d, r, "/sim/proj/api", 3)
 		if r.chance(600) {
